@@ -30,7 +30,7 @@ def sweep(binary, fen, pre, fields=6):
     for s, ch in zip(UNIVERSE, chunks):
         # the chunk is: optional "error: ..." line(s), then the show output (or its error)
         first, _, rest = ch.partition("\n")
-        is_err = first.startswith("error: Invalid move") or first.startswith("error: Game became") or first.startswith("error: Invalid position")
+        is_err = first.startswith("error")          # whatever its wording
         body = rest if is_err else ch
         x = cache.get(body)
         if x is None:
